@@ -86,6 +86,8 @@ fn runtime() -> Runtime<NoCtx> {
         #[clone] type Tracked = Val<Tracked>;
         /// 3-byte copy type
         #[copy] type Tri = Val<Tri>;
+        /// zero-sized clone type
+        #[clone] type Zst = Val<Zst>;
 
         /// registered constants (engine T reads their stored bytes through hook H2)
         const K_U8: u8 = 0xA5;
@@ -134,6 +136,7 @@ fn runtime() -> Runtime<NoCtx> {
 
         /// seven arguments of mixed width (argument position / register assignment)
         // zero-sized `()` parameters take no machine argument: the ones after them must still arrive
+        fn after_zst(_z: Val<Zst>, x: u32) -> u32 { ev(format!("after_zst {:#x}", x)); x }
         fn after_unit(_u: (), x: u32) -> u32 { ev(format!("after_unit {:#x}", x)); x }
         fn around_unit(x: u32, _u: (), y: u32) -> u32 { ev(format!("around_unit {:#x} {:#x}", x, y)); x.wrapping_sub(y) }
         // registered functions that build an Option / Result on the Rust side
@@ -287,6 +290,14 @@ impl<T: Bits> Bits for Option<T> {
         match self { Some(x) => format!("{{\"Some\": {}}}", x.to_json()), None => "\"None\"".into() }
     }
 }
+#[derive(Clone, Debug, PartialEq)]
+pub struct Zst;
+
+impl Bits for Val<Zst> {
+    fn from_bits(_: u64) -> Self { Val(Zst) }
+    fn to_json(&self) -> String { "\"zst\"".into() }
+}
+
 impl<A: Bits, R: Bits> Bits for Verdict<A, R> {
     fn from_bits(_: u64) -> Self { unimplemented!() }
     fn to_json(&self) -> String {
@@ -358,6 +369,7 @@ macro_rules! per_type {
             "bool,bool,bool->bool" => (bool, bool, bool) -> bool;
             "bool->bool" => (bool) -> bool;
             "u8,i64,bool->i64" => (u8, i64, bool) -> i64;
+            "Zst,u32->u32" => (Val<Zst>, u32) -> u32;
             "i32->opt_i32" => (i32) -> Option<i32>;
             "i32,i32->opt_i32" => (i32, i32) -> Option<i32>;
             "opt_i32->i32" => (Option<i32>) -> i32;
